@@ -430,6 +430,18 @@ def forms_case(case, res):
         except BaseException as e:
             res.violation("kwargs|where= signal|raised", f"{type(e).__name__}: {str(e)[:80]}", case, None)
         res.hits["ufunc keyword arguments"] += 1
+    # a labelled axis of length ONE (one channel, one time sample) stretched by the other operand's broadcasting
+    if kind in "fc":
+        zs = make_sig(cls, dt, be)
+        cands = [("one time sample", zs[:1], np.arange(1.0, 6.0).reshape((5,) + (1,) * (zs.ndim - 1)))]
+        if zs.ndim >= 2:
+            cands.append(("one channel", zs[:, :1], np.arange(1.0, 4.0).reshape((3,) + (1,) * (zs.ndim - 2))))
+        for what, z1, g in cands:
+            for uf, args in ((np.multiply, [z1, g]), (np.subtract, [g, z1]), (np.greater, [z1, g]), (np.add, [z1, g])):
+                sub = {"ufunc": uf.__name__, "stretched": what, "order": "z,g" if args[0] is z1 else "g,z"}
+                res.state((cls, dt, be, "stretch", what, uf.__name__, sub["order"]))
+                check_call(res, case, uf, args, sub)
+            res.hits["length-1 labelled axis stretched by broadcasting"] += 1
     # out= / in-place with signals of ZERO time samples (valid signals; must still return the given object)
     if kind != "b":
         a0, b0, c0 = make_sig(cls, dt, be)[2:2], make_sig(cls, dt, be, True)[2:2], make_sig(cls, dt, be, True)[3:3]
@@ -641,7 +653,7 @@ def main(argv=None):
         required_hits=["reference raises: signal call raises too", "result dtype not admitted -> ValueError", "two outputs",
                        "python float/complex scalar with integer or bool signal", "signals of two classes", "operators",
                        "out= returns the same object", "two-output out= tuple", "in-place chains", "zero-length out= target", "masked-array data", "in-place with scaled dimensionless Quantity", "result modified in place, operand unchanged", "ufunc keyword arguments", "refused with TypeError",
-                       "array conversion", "conversion, in-place write, conversion"],
+                       "array conversion", "conversion, in-place write, conversion", "length-1 labelled axis stretched by broadcasting"],
         assumptions=["for Dask data an error may surface at compute time"],
         argv=argv, chunksize=1)
 
